@@ -34,6 +34,14 @@ import (
 // PUBLISH packets sent on the connection), so every 0x93 is a violation; keys
 // ...within-limit:after-refused-publish / :after-dup-retransmission.
 
+// Receive Maximum per connection: with rms=<a>.<b> a declares another Receive Maximum when it
+// reconnects / takes its session over (ops rc0:<rm>, to0:<rm>, ...). The reference model
+// takes the limit of (i) from the CONNECT of the current connection only. A session resumed
+// with a SMALLER value while messages are in flight: the resend at establishment is judged
+// as before (known keys: the quota is reset to the full new value although R resent messages
+// are outstanding, which explains up to rm+R packets in transit); more than rm+R packets in
+// transit: key c11:receive-maximum-exceeded:after-resumption-with-smaller-receive-maximum.
+
 func init() {
 	explore.RegisterBFS("c11", qosRun("c11"))
 	explore.Register("C11", func(c *explore.Ctx) {
@@ -44,6 +52,8 @@ func init() {
 		c.Rep.Assumption("an inbound QoS 2 publish counts against the server's Receive Maximum until PUBCOMP was sent; outbound counts until PUBACK/PUBCOMP was received (violations that only exist under this reading have their own key family)")
 		var sts []*explore.BFSStats
 		if c.Quick() {
+			// cheap and decisive first (the budgets of the scenarios below add up to more than the tier's deadline on a loaded machine)
+			sts = append(sts, explore.RunBFS(c, "c11", "v=5,rm=3,rms=3.1,srm=2,pubs=3,qos=1,conns=1,take=1,apubs=0,closure=ackall", 0, 12*time.Second))
 			sts = append(sts, explore.RunBFS(c, "c11", "v=5,rm=1,srm=1,pubs=3,qos=12,conns=0,apubs=2,aids=1,abase=10,aqos=012,closure=ackall", 0, 25*time.Second))
 			sts = append(sts, explore.RunBFS(c, "c11", "v=5,rm=2,srm=2,pubs=4,qos=12,conns=0,apubs=1,aids=1,abase=10,aqos=2,closure=ackall", 0, 25*time.Second))
 			sts = append(sts, explore.RunBFS(c, "c11", "v=5,rm=1,srm=2,pubs=3,qos=1,conns=2,take=1,apubs=0,closure=ackall", 0, 20*time.Second))
@@ -57,7 +67,9 @@ func init() {
 			sts = append(sts, explore.RunBFS(c, "c11", "v=5,rm=0,srm=2,pubs=0,conns=1,take=1,apubs=4,aids=2,abase=10,aqos=012,adup=2,refuse=xyz,rpubs=3,closure=ackall", 0, 90*time.Second))
 			sts = append(sts, explore.RunBFS(c, "c11", "v=5,rm=0,srm=1,pubs=1,qos=1,conns=1,apubs=3,aids=2,abase=10,aqos=12,adup=2,refuse=xyz,rpubs=2,closure=ackall", 0, 60*time.Second))
 			sts = append(sts, explore.RunBFS(c, "c11", "v=5,rm=0,srm=3,pubs=0,conns=1,apubs=4,aids=3,abase=10,aqos=12,adup=2,refuse=xy,rpubs=3,closure=ackall", 0, 60*time.Second))
+			sts = append(sts, explore.RunBFS(c, "c11", "v=5,rm=3,rms=3.1,srm=2,pubs=4,qos=12,conns=2,take=1,clean=1,apubs=0,closure=ackall", 0, 90*time.Second))
+			sts = append(sts, explore.RunBFS(c, "c11", "v=5,rm=0,rms=0.2.1,srm=2,pubs=3,qos=1,conns=2,take=1,apubs=0,closure=ackall", 0, 60*time.Second))
 		}
-		qosFold(c, sts, "messages_held_back_while_connected", "ackall_closures", "deferred_releases", "own_publish_sensitive_to_slot_kept_by_refused_publish", "own_publish_sensitive_to_slot_kept_by_dup_retransmission")
+		qosFold(c, sts, "messages_held_back_while_connected", "ackall_closures", "deferred_releases", "own_publish_sensitive_to_slot_kept_by_refused_publish", "own_publish_sensitive_to_slot_kept_by_dup_retransmission", "resumptions_with_smaller_receive_maximum_and_messages_in_flight")
 	})
 }
